@@ -270,7 +270,7 @@ def split_groups(props):
 def canary_property(job, gb, workdir):
     props = list_properties(job, gb, workdir) or []
     for p in props:
-        if "vf_canary" in p.get("description", ""):
+        if "vf_canary" in p.get("description", "") and p.get("name", "").startswith(job.entry + "."):
             return p.get("name")
     return None
 
